@@ -170,7 +170,8 @@ def dec_val(s: str):
 #                   part of the encoding: both spellings behave alike in _parse_config_value
 
 SCALARS = {"int": "i", "float": "f", "str": "s", "bool": "b", "any": "a",
-           "lany": "x", "tany": "y", "dany": "z"}     # untyped list/List, Tuple, dict/Dict; t[1] (optional) = spelling
+           "lany": "x", "tany": "y", "dany": "z",     # untyped list/List, Tuple, dict/Dict; t[1] (optional) = spelling
+           "never": "n"}                              # an annotation `_parse_config_value` does not recognise
 BARE = {"lany": ("List", "list"), "tany": ("Tuple", "tuple"), "dany": ("Dict", "dict")}
 UNARY = {"opt": "o", "list": "l", "tvar": "v", "dict": "d"}
 
@@ -298,6 +299,11 @@ def norm_model_line(line: str) -> str:
 # ---------------------------------------------------------------------------
 # realising descriptors as real @configstruct classes / real values
 # ---------------------------------------------------------------------------
+
+import sys as _sys
+import types as _types
+_sys.modules.setdefault("c16_generated", _types.ModuleType("c16_generated"))    # dataclasses looks the module up
+
 
 class World:
     """Registry of real classes by struct name (shipped ones are the real config_defs classes)."""
@@ -709,6 +715,8 @@ def gen_valid(t, rng, json_only: bool = False):
         return rng.random() < 0.5
     if k == "any":
         return gen_json(rng, 2)
+    if k == "never":
+        return gen_json(rng, 1)
     if k == "lany":
         return [gen_json(rng, 1) for _ in range(rng.randint(0, 3))]
     if k == "tany":
@@ -878,7 +886,7 @@ def mutate(t, v, rng):
                 items.insert(rng.randint(0, len(items)), (extra, gen_json(rng, 1)))
                 return replace_at(v, path, dict(items)), "extra-field"
             continue
-        if pt[0] == "any":
+        if pt[0] in ("any", "never"):
             continue
         if pt[0] == "int" and rng.random() < 0.15:
             return replace_at(v, path, rng.random() < 0.5), "bool-in-int"      # admitted
@@ -922,6 +930,8 @@ def spec(t, v, path, off):
         return v if isinstance(v, str) else bad()
     if k == "bool":
         return v if isinstance(v, bool) else bad()
+    if k == "never":
+        return bad()                                          # no value fits an unrecognised annotation
     if k == "lany":
         return v if isinstance(v, list) else bad()            # untyped: the container is checked, the content is not
     if k == "tany":
@@ -1010,16 +1020,24 @@ def run_parse(world: World, t, data, via: str, ordered: bool = False):
     real = world.real(data, ordered)
     parse = (lambda d: cs.config_struct_from_dict(d, T)) if via == "from_dict" else (lambda d: cs._parse_config_value(d, T, []))
     todict = cs.config_struct_to_dict if via == "from_dict" else cs._inner_config_struct_to_dict
+    before = enc_val(data)
     try:
         r = parse(real)
     except QMI_ConfigurationException as e:
         kind, p = classify_cfg_error(str(e))
+        if enc_val(nv_from_real(real)) != before:
+            return "input-mutated", ("mutated", "input data changed by a failing conversion")
         return f"exc:QMI_ConfigurationException {kind} {hexs(p)}", ("cfg", kind, p, str(e))
     except RecursionError:
         raise
     except Exception as e:  # noqa: BLE001 — the property is about which exception types escape
         return f"exc:{type(e).__name__}", ("exc", type(e).__name__, str(e))
     try:
+        if enc_val(nv_from_real(real)) != before:
+            return "input-mutated", ("mutated", "input data changed by the conversion")
+        # the same data a second time: the same structure (no state kept between calls)
+        if enc_val(nv_from_real(parse(real))) != enc_val(nv_from_real(r)):
+            return "not-deterministic", ("mutated", "second conversion of the same data differs")
         rn = nv_from_real(r)
         d = todict(r)
         dn = nv_from_real(d)
@@ -1044,6 +1062,8 @@ def oracle_parse(t, data, outcome):
     off: list = []
     exp = spec(t, data, [], off)
     kind = outcome[0]
+    if kind == "mutated":
+        return "struct:input-mutated-or-stateful", outcome[1]
     if kind == "exc":
         # which offending item triggered it: the one whose repair makes the exception go away is found by the caller's
         # shrinker; here classify by the offending items present
@@ -1321,11 +1341,16 @@ class C16(Prop):
         "floats are opaque (identified by repr; float(int) kept symbolic and resolved by Python's own float())",
         "the re-validation of already parsed values inside the @configstruct constructor (cls(**items)) is modelled as "
         "'build the instance'; theorem ctor_revalidation_noop shows the modelled constructor accepts the parsed items "
-        "unchanged for well-formed descriptors and JSON data; every generated descriptor is checked `wf` by the driver",
+        "unchanged for well-formed descriptors (distinct fields, well-typed defaults) and JSON data; every generated "
+        "descriptor is checked `wf` by the driver; an ill-typed default is outside the model",
         "Python repr() of dict keys in the error path (rendered by Python itself on both sides)",
-        "Python's recursion limit (nesting depth kept < 50); non-string dict keys; dataclass fields with init=False; string "
-        "annotations; bare list/dict/List/Tuple/Dict field types; non-dict top-level data passed to config_struct_from_dict",
-        "_check_config_struct_type is exercised (every generated type must be accepted) but not modelled",
+        "which live annotation object is which raw type (typing.get_origin/get_args inspection in describe_raw; the code "
+        "itself goes by repr()); PEP 585/604 generics and string annotations are classed `other` (validated differentially)",
+        "dict keys are strings in the model: data with non-string keys is checked by the oracle only",
+        "dataclass fields with init=False: modelled in the acceptance test (skipped), not in the parser (oracle-only corpus)",
+        "file system, text decoding and universal newlines (open(..., 'r'/'w')), os.path.abspath, os.getenv at import: "
+        "parameters of `createConfig`/`loadString`; exercised on real files (UTF-8, three newline styles, BOM, missing file)",
+        "Python's recursion limit (nesting depth kept ≤ 40) and CPython's 4300-digit limit of int<->str conversion",
     ]
 
     # -- translator -------------------------------------------------------
@@ -1422,6 +1447,13 @@ class C16(Prop):
         # (1) systematic: every type head × every value head, bare and under wrappers
         for t, data, via in systematic_cases(world):
             add_parse(t, data, via, "systematic")
+        for t, data, via in fixed_struct_corpus():
+            add_parse(t, data, via, "fixed-corpus")
+        clause = shared_default_check(world)
+        res.note_case(("shared-defaults",))
+        if clause and not any(f.signature == clause for f in res.failures):
+            res.failures.append(Failure(clause, "two structures built from defaults share a mutable default object",
+                                        {"kind": "shareddefault"}))
         # (2) shipped structures
         for d in world.shipped:
             for _ in range(max(4, n_data)):
@@ -1530,6 +1562,7 @@ class C16(Prop):
                     text = text[:rng.randint(0, len(text))]
                 texts.append((text, "malformed", None))
         texts += [(t, "systematic", None) for t in systematic_texts()]
+        texts += fixed_texts()
 
         # stage 1: _strip_comments
         lines1 = ["strip " + text_cps(t) for t, _, _ in texts]
@@ -1675,11 +1708,21 @@ class C16(Prop):
                           "systematic type-head × value-head table, the shipped structures, random descriptors of depth ≤ 4 "
                           "with valid data and one/two-mutation mismatches, constructor calls; text cases: JSON documents with "
                           "comments appended to lines, '#'/quotes/backslashes in strings, duplicate keys, malformed text, dumps. "
+                          "Fixed corpus first on every seed (related field names, depth-30/40 nesting, aliasing, numeric and "
+                          "tuple-length boundaries, escape-spelled duplicate keys, Unicode line separators inside strings, '#' at "
+                          "every line boundary); raw annotations incl. every rejected class against checkType/parseRaw/fromDictFull; "
+                          "non-dict top-level data; non-string keys and init=False (oracle only); create_config_from_file on real "
+                          "files (argument / $QMI_CONFIG / neither); dump_config_file/load_config_file on real files. "
                           "Non-trivial = mutated or nested data / text containing '#'; distinct by (type, data) resp. text")
         world = self._world()
         self._struct_stream(ctx, res, world, ctx.scale(1200, 30000), ctx.scale(4, 6))
         self._text_stream(ctx, res, ctx.scale(8000, 200000))
         self._dump_of_structs(ctx, res, world, ctx.scale(500, 12000))
+        from harness.props import c16_ext as X
+        X.raw_stream(self, ctx, res, world, ctx.scale(500, 8000))
+        X.odd_corner_corpus(self, ctx, res, world)
+        X.createcfg_stream(self, ctx, res, world)
+        X.file_stream(self, ctx, res, ctx.scale(150, 3000))
         res.assumptions.append("json.loads(json.dumps(d)) == d for JSON-representable d (third-party parameter)")
         return res
 
@@ -1719,6 +1762,21 @@ class C16(Prop):
     def replay(self, ctx: Ctx, rp: dict, world: Optional[World] = None):
         world = world or self._world()
         kind = rp.get("kind")
+        if kind in ("raw", "rawparse", "rawfrom", "nonstr", "initfalse", "createcfg", "filerw", "fileload", "filefixed"):
+            from harness.props import c16_ext as X
+            if kind in ("raw", "rawparse", "rawfrom"):
+                return X.replay_raw(world, rp)
+            if kind == "nonstr":
+                sig = X.run_nonstr_case(rp["case"])
+                return Failure(sig, f"non-string key case {rp['case']}", rp) if sig else None
+            if kind == "initfalse":
+                sig = X.run_init_false_case(rp["case"])
+                return Failure(sig, f"init=False case {rp['case']}", rp) if sig else None
+            if kind == "fileload":
+                return X.replay_fileload(rp)
+            if kind == "filerw":
+                return self.replay(ctx, {"kind": "dumpload", "val": rp["val"]}, world)
+            return None            # createcfg / filefixed: deterministic corpus, re-run by the check itself
         if kind == "parse":
             t, data = dec_ty(rp["ty"]), dec_val(rp["val"])
             _register(world, t)
@@ -1789,6 +1847,119 @@ class C16(Prop):
         raise ValueError(f"unknown replay kind {kind!r}")
 
 
+def fixed_struct_corpus():
+    """boundary cases that run first on every seed: related field names, deep nesting, reused sub-objects"""
+    i, s = ("int",), ("str",)
+    names = ["host", "hos", "host_", "Host", "HOST", "_host"]
+    rel = ("struct", "FixRel", [(n, s, n != "host", n.upper()) for n in names])
+    out = []
+    for extra in ["hosts", "ost", "hOst", "host ", " host", "host\u0000", "HOS", "", "host.x", "[host]"]:
+        out.append((rel, {"host": "h", extra: "v"}, "from_dict"))
+    out.append((rel, {"Host": "h"}, "from_dict"))                     # the required `host` is missing, not `Host`
+    out.append((rel, {n: n for n in names}, "from_dict"))
+    out.append((rel, {n: n for n in reversed(names)}, "from_dict"))
+    # a Dict whose keys are the field names of the enclosing structure; a field named like a dict key of its sibling
+    out.append((("struct", "FixRel2", [("a", ("dict", i), False, None), ("b", i, True, 0)]), {"a": {"a": 1, "b": 2}}, "from_dict"))
+    out.append((("struct", "FixRel2", [("a", ("dict", i), False, None), ("b", i, True, 0)]), {"a": {"b": "x"}, "b": 1}, "from_dict"))
+    # the same sub-object in two places (aliasing in the input)
+    shared = {"p": 1}
+    inner = ("struct", "FixIn", [("p", i, False, None)])
+    out.append((("struct", "FixAl", [("u", inner, False, None), ("v", inner, False, None), ("w", ("any",), True, None)]),
+                {"u": shared, "v": shared, "w": shared}, "from_dict"))
+    # nesting: 30 levels of List / Optional / Dict around a scalar (well below Python's recursion limit), 8 of structures
+    t, v, bad = i, 7, "x"
+    for k in range(30):
+        kind = ("list", "dict", "opt", "tvar")[k % 4]
+        if kind == "list":
+            t, v, bad = ("list", t), [v], [bad]
+        elif kind == "dict":
+            t, v, bad = ("dict", t), {"k": v}, {"k": bad}
+        elif kind == "opt":
+            t = ("opt", t)
+        else:
+            t, v, bad = ("tvar", t), [v, v], [v, bad]
+    out += [(t, v, "pcv"), (t, bad, "pcv")]
+    st, sv = ("struct", "FixN0", [("x", i, False, None)]), {"x": 1}
+    for k in range(1, 8):
+        st, sv = ("struct", f"FixN{k}", [("n", st, False, None), ("d", i, True, k)]), {"n": sv}
+    out += [(st, sv, "from_dict")]
+    # boundaries of the numeric tower
+    out += [(("float",), FLOAT_LIMIT - 1, "pcv"), (("float",), FLOAT_LIMIT, "pcv"), (("float",), -FLOAT_LIMIT + 1, "pcv"),
+            (("float",), -FLOAT_LIMIT, "pcv"), (("opt", ("float",)), FLOAT_LIMIT, "pcv"), (("int",), 10 ** 4000, "pcv")]
+    # fixed tuples around their length
+    for n in range(0, 4):
+        tt = ("tfix", [i] * n)
+        for m in (n - 1, n, n + 1):
+            if m >= 0:
+                out.append((tt, [1] * m, "pcv"))
+                out.append((tt, tuple([1] * m), "pcv"))
+    return out
+
+
+def shared_default_check(world: World):
+    """default_factory defaults must be fresh per structure: changing one structure must not change the next"""
+    from qmi.core import config_struct as cs
+    for d in world.shipped:
+        cls = world.shipped_classes[d[1]]
+        required = [f for f in d[2] if not f[2]]
+        if required:
+            continue
+        for make in (lambda: cls(), lambda: cs.config_struct_from_dict({}, cls)):
+            a = make()
+            ref = enc_val(nv_from_real(make()))
+            for f in dataclasses.fields(a):
+                v = getattr(a, f.name)
+                if isinstance(v, list):
+                    v.append("poison")
+                elif isinstance(v, dict):
+                    v["poison"] = 1
+                elif dataclasses.is_dataclass(v):
+                    for g in dataclasses.fields(v):
+                        w = getattr(v, g.name)
+                        if isinstance(w, dict):
+                            w["poison"] = 1
+                        elif isinstance(w, list):
+                            w.append("poison")
+            if enc_val(nv_from_real(make())) != ref:
+                return "struct:shared-mutable-default:" + d[1]
+    return None
+
+
+def fixed_texts():
+    """documents at the boundaries of the comment and duplicate-key rules (first on every seed)"""
+    out = []
+    bs = chr(92)
+    # a key written twice with different escapes is the same key
+    for t in ['{"a": 1, "' + bs + 'u0061": 2}', '{"k": {"": 1, "": 2}}',
+              '[{"x": 1}, {"y": {"z": 1, "' + bs + 'u007a": 2}}]', '{"é": 1, "' + bs + 'u00e9": 2}',
+              '{"a": [{"b": 1, "b": 1}]}', '{"a": 1,' + chr(10) + '#c' + chr(10) + '"a": 1}']:
+        out.append((t, "duplicate-key", None))
+    # keys that only look alike are different keys
+    for d in [{"a": 1, "A": 2}, {"a": 1, "a ": 2}, {"": 1, " ": 2}, {"é": 1, "e" + chr(0x301): 2}, {"1": 1, chr(0xFF11): 2}]:
+        out.append((json.dumps(d, ensure_ascii=False), "commented-fixed", d))
+    # characters str.splitlines() treats as line ends are ordinary characters inside a JSON string
+    for cp in [0x2028, 0x2029, 0x85, 0x7F, 0xA0, 0xFEFF]:
+        c = chr(cp)
+        d = {"a" + c + "#": "x" + c + "# not a comment", "b": 1}
+        out.append((json.dumps(d, ensure_ascii=False) + " # c" + c + "still the comment", "commented-fixed", d))
+    # '#' and quotes at every boundary of a line
+    nl, cr, q = chr(10), chr(13), '"'
+    for t, d in [("#" + nl + "{}", {}), ("{}#", {}), ("{}" + nl + "#", {}),
+                 ('{"a": "' + bs + bs + '"}#"', {"a": bs}),
+                 ('{"a": "' + bs + q + '"}#' + bs + q, {"a": q}),
+                 ('{"a":"#"}#"#"', {"a": "#"}), ('{"#":"#"#' + nl + "}", {"#": "#"}),
+                 ('{"a": 1 #,"b": 2' + nl + "}", {"a": 1}),
+                 ('{"a": "b' + bs + bs + bs + q + '#c"} # d', {"a": "b" + bs + q + "#c"}),
+                 (cr + nl + "{" + cr + '"a"' + cr + ":" + cr + "1" + cr + "}" + cr + "#", {"a": 1})]:
+        out.append((t, "commented-fixed", d))
+    # nesting depth 40, a comment (with a quote in it) on every line
+    deep: Any = 1
+    for _ in range(40):
+        deep = {"k#": [deep]}
+    out.append((nl.join(ln + ' # c"' for ln in json.dumps(deep, indent=1).split(nl)), "commented-fixed", deep))
+    return out
+
+
 def _register(world: World, t) -> None:
     """make sure the classes of a decoded descriptor exist (nested first)"""
     world.realise(t)
@@ -1852,7 +2023,7 @@ def systematic_texts(deep: bool = False):
     """short lines over the characters the comment rule distinguishes"""
     alphabet = ['"', "#", "\\", "a"]
     out = []
-    for n in range(0, 6 if deep else 5):
+    for n in range(0, 7 if deep else 6):
         for tup in itertools.product(alphabet, repeat=n):
             out.append("".join(tup))
     out += ['{"a": 1} # c', '{"a#": "#"} # "', '{"a": "\\"#"}#', '{"a": "\\\\"}#x"', '{"a": 1,\n"a": 2}', "# only\n{}", "{}\r\n#x\r{}",
